@@ -60,8 +60,8 @@ ASSUMPTIONS = [
     "asserts are not error points",
     "slice positions are clamped / filtered / de-duplicated in the model (identity on the positions Python computes); "
     "initializers.update is validated by a dry run of the per-entry checks (the code keeps a pending-names table)",
-    "values whose const tensor refuses renaming meet the implicit naming paths: the model follows proposed fix D85 "
-    "(probe in the validation phase); on the unfixed code these shapes are the known finding D85",
+    "values whose const tensor refuses renaming meet the implicit naming paths; model and code (fix D85, repo da95b1f) "
+    "probe the tensor in the validation phase",
     "the name authority's generated names use a bounded loop (|seen|+1 iterations suffice: C15)",
 ]
 
